@@ -320,7 +320,11 @@ func VerifC04ConfirmStep() {
 	_, err = e.ms.Confirm(e.ctx, msg)
 
 	want := r.gateOK && variant == c04cfHonest
-	vs.Assert("accepted-iff-spec", (err == nil) == want)
+	if variant == c04cfHonest {
+		vs.Assert("accepted-iff-spec", (err == nil) == want)
+	} else {
+		vs.Assert("bad-proof-rejected", err != nil)
+	}
 	c04AssertUnchanged(e, "bystander", 2, pre2)
 	post := c04Snap(e, 1, n)
 	if err != nil {
